@@ -5,6 +5,10 @@
     w <hex text>     read back arbitrary argument text          obs: `<fields>`                spec: -
     d <hex text>     the same for arguments of a declaration utility  obs: `<fields>`            spec: -
     v s:<hex> | a:<hex>,…  `Value::quote` of a scalar / array     obs: `<hex quoted>`            spec: -
+    s <hex text>     a whole text read as newline-separated simple commands (`scriptCmds`)
+                     obs: `none` | `some:` commands joined by `;`, each = items joined by `,`:
+                     `s<hex name>=<hex value>` (scalar assignment), `a<hex name>=<hex>+<hex>…` (array; `.` = empty),
+                     `w<hex field>`                                                            spec: -
     c <code point>   character classes                          obs: `ws=… needs=… blank=… delim=…`  spec: -
     L <listing case> (see Listing.lean)
 
@@ -54,6 +58,21 @@ def runV (t : String) : String :=
     | none => "bad-case\t-"
   | _ => "bad-case\t-"
 
+def showCmd (c : Cmd) : String :=
+  ",".intercalate ((c.assigns.map fun a =>
+      match a.2 with
+      | .scalar v => s!"s{encChars a.1}={encChars v}"
+      | .array vs => s!"a{encChars a.1}={if vs.isEmpty then "." else "+".intercalate (vs.map encChars)}")
+    ++ c.fields.map fun f => s!"w{encChars f}")
+
+def runS (t : String) : String :=
+  match decChars t with
+  | none => "bad-case\t-"
+  | some s =>
+    match scriptCmds s with
+    | none => "none\t-"
+    | some cs => s!"some:{";".intercalate (cs.map showCmd)}\t-"
+
 def runC (t : String) : String :=
   match t.toNat? with
   | none => "bad-case\t-"
@@ -68,6 +87,7 @@ def runLine (line : String) : String :=
   | ["d", t] => runD t
   | ["v", t] => runV t
   | ["c", t] => runC t
+  | ["s", t] => runS t
   | "L" :: rest => Listing.runL rest
   | _ => "bad-case\t-"
 
